@@ -1626,9 +1626,21 @@ class H2Connection:
         """
         # If necessary, check we can open the stream. Also validate that the
         # stream ID is valid.
-        if (frame.stream_id not in self.streams or
+        if frame.stream_id not in self.streams:
+            # Only a stream the peer opens with this frame can exceed our
+            # limit: an ID at or below the highest one seen, or one of our
+            # own, is a closed stream that has been cleaned up.
+            counts = (
+                not self._stream_id_is_outbound(frame.stream_id) and
+                frame.stream_id > self.highest_inbound_stream_id
+            )
+        else:
+            counts = (
                 self.streams[frame.stream_id].state_machine.state ==
-                StreamState.RESERVED_REMOTE):
+                StreamState.RESERVED_REMOTE
+            )
+
+        if counts:
             # Either a new stream, or a promised stream that starts to count
             # towards our limit now that its response begins.
             max_open_streams = self.local_settings.max_concurrent_streams
